@@ -38,6 +38,7 @@ from explorerscript.ssb_converting.ssb_data_types import SsbOperation
 from explorerscript.ssb_converting.ssb_data_types import SsbOperator
 from explorerscript.ssb_converting.ssb_special_ops import (
     SsbLabelJump,
+    OP_JUMP,
     SwitchStart,
     OPS_THAT_END_CONTROL_FLOW,
     OP_SWITCH_DUNGEON_MODE,
@@ -123,6 +124,8 @@ class SwitchWriteHandler(AbstractWriteHandler):
                                 if not handler.last_handler_in_block.ended_on_jump and (
                                     root_op_before is None
                                     or root_op_before.op_code.name not in OPS_THAT_END_CONTROL_FLOW
+                                    # A Jump to the end of the switch: no jump statement was written for it.
+                                    or root_op_before.op_code.name == OP_JUMP
                                 ):
                                     self.decompiler.write_stmnt("break;")
 
